@@ -1,15 +1,66 @@
+/-
+  C16 / C15 -- sequences of writes with arbitrary modes (Props/C16.lean `runWrites`, `specFold`; Props/C16fold.lean proves
+  the fold theorem for the native flavour with `order = false`), generalised to
+
+    (2) `order = true`, native flavour                      `C16_fold_ordered`
+    (1) the OpenFOAM flavour, `order = false`               `C16_fold_foam`
+
+  (2) `C16_fold_ordered`.  Same hypotheses as `C16.C16_fold_statement` (stated for the UNORDERED specification fold).
+      After any non-empty sequence of writes with `order=True` the file read back is, up to the header placeholder
+      entry, `orderD D` for `D = specFold none ws`: keys ascending at every dict level (`SortedV`), same key → value
+      association at every level as `D` (`SameAssoc`, `lookup … = (lookup …).map orderV`, key sets `Perm`).
+      What had to be proved on the way:
+        * `orderD_merge_orderD`: `orderD (mergeD (orderD a) N) = orderD (mergeD a N)` (unique keys at every level) — the
+          append-merge does not see the key order of the existing dict, up to the order of the result
+          (`sorted_ext`, `orderD_ext`: a sorted association list with unique keys is determined by its lookups);
+        * re-reading the header file with `order=True` sorts the header placeholder entry `BLOCKCOMMENT000000` in AMONG
+          the keys (after the int keys and upper-case words: `HdrIn`, example below); the merge leaves it alone
+          (`HdrIn.merge`, via `filter_mstep`), `_clean` keeps it (`clean_hdrP`), `order_keys` keeps it (`HdrIn.order`) and
+          the writer hoists it back to the front (`hoist_hdrIn`, `fmtSD_hdrIn`).
+
+  (1) `C16_fold_foam`.  Which fold: `specFold none (dropWs ws)` — the fold of `C16_fold_statement` over the written dicts
+      WITHOUT their private keys (`dropUnderscoreEs .foam`, every level, also inside lists).  This is the true
+      specification because the removal of private keys commutes with the merge (`drop_mergeD`, no hypothesis) and with
+      `_retype_values` (`C10.normEs_drop`).  What the reader adds: a file written by the `SDict` route (append onto an
+      existing file) starts with the Foam header = banner block comment + `FoamFile { … }` dict + separator line
+      comment; it is read back as `foamSD n D`: entries `BLOCKCOMMENT000000`, `FoamFile ↦ {version: 2.0, format: ascii,
+      class: dictionary, object: foamDict}`, `LINECOMMENTnnnnnn` (id from the counter) in front of the data, banner and
+      separator in the comment tables.  So `dropPhEntries` of what is read is `D`, preceded by the `FoamFile` entry
+      exactly when the last write was an append onto the existing file (`hdrAfter`).
+      Proved on the way (nothing of this existed for the Foam header):
+        * `parse_foam_hdr` / `readFile_of_parse_foam`: the reader on `foamHeader ++ fmtPlain .foam E` (through
+          `C12.C12_read_commented`: the text is an admissible layout of a commented document, `foam_layout`);
+        * `fmtSD_foam`: the Foam writer on `foamSD n M` writes `foamHeader ++ fmtPlain .foam M` (header not doubled);
+        * `clean_foam` (`_clean` keeps the three header entries), `merge_foamSD`, `mergeD_top_eq'`.
+      `foam_naive_fold_false`: the unadjusted statement (fold over the dicts as written, nothing added) is false.
+
+  Hypotheses of (1) beyond those of the native theorem (`DictOKF`, per written dict): the public part lies in the Foam
+  value domain; no top-level key `FoamFile` (it would be merged with the header's block); no placeholder-word key
+  (`BLOCKCOMMENTdddddd`, …) and unique keys at every level INCLUDING the private parts (`_clean` runs over private
+  sub-dicts too; `dictOKF_of_dom` gives a Bool-checkable sufficient condition: the whole dict in the Foam domain).
+  The path must be a `.foam` path (`C10.isFoamPath`), normalised.  `DocKeysAbsent'` is not needed (private keys).
+
+  Not covered: `order = true` for the Foam flavour; the JSON format (the statement of C16 names it; `writeStep` models the
+  native/Foam writer only); XML.  Non-vacuity: `exWsO`/`ex_fold_ordered`, `exWsF`/`ex_fold_foam` (one `w`, two `a`,
+  overlapping nested dicts; for Foam with private keys on both levels).
+-/
 import DictIO.Props.C16fold
 import DictIO.Props.C15file
 import DictIO.Props.C10file
+import DictIO.Props.C12read
+import DictIO.Props.C09equiv
+import DictIO.Props.C12write
 
 namespace DictIO.C16ext
 open DictIO DictIO.C16
 
-attribute [local irreducible] nativeHeader
+attribute [local irreducible] nativeHeader foamHeader
 set_option linter.unusedSimpArgs false
 set_option linter.unusedVariables false
 
 /-! # helper lemmas -/
+
+/-! # helper lemmas for (2): ordering -/
 
 /-! ## sorted association lists are determined by their lookups -/
 
@@ -403,6 +454,957 @@ theorem fmtSD_hdrIn {L D : Entries} (h : HdrIn L D) (hD : DomC01 .native D = tru
   rw [e]
   exact (C12.write_header hD).trans (C12.fmtSD_text D)
 
+
+/-! # helper lemmas for (1): the Foam header -/
+
+/-! ## the Foam header, in pieces -/
+
+/-- the banner block comment `/*---…---*/` (seven lines) -/
+def bannerC : Str := C10.foamHeaderChars.take 559
+/-- … without `/*` and `*/` -/
+def bannerBody : Str := ((bannerC.drop 2).dropLast).dropLast
+/-- the `FoamFile { … }` block, as the header spells it -/
+def ffText : Str := (C10.foamHeaderChars.drop 560).take 167
+/-- the separator line comment `// * * * … * //` -/
+def lcText : Str := (C10.foamHeaderChars.drop 727).dropLast
+def lcBody : Str := lcText.drop 2
+
+theorem foamHeaderChars_split : C10.foamHeaderChars = bannerC ++ '\n' :: ffText ++ lcText ++ ['\n'] := by decide +kernel
+
+theorem foamHeader_split : foamHeader = bannerC ++ '\n' :: ffText ++ lcText ++ ['\n'] := by
+  rw [C10.foamHeader_eq]; exact foamHeaderChars_split
+
+theorem bannerC_shape : bannerC = '/' :: '*' :: bannerBody ++ ['*', '/'] := by decide +kernel
+theorem lcText_shape : lcText = '/' :: '/' :: lcBody := by decide +kernel
+theorem bannerBody_ok : isBlockCText bannerBody = true := by decide +kernel
+theorem lcBody_ok : isLineCText lcBody = true := by decide +kernel
+
+/-! ## a comment-free source document as a commented document -/
+
+mutual
+  def embV : Src → CSrc
+    | .lit l => .lit l
+    | .dict es => .dict (embEs es)
+    | .list xs => .list xs
+  def embEs : SrcEntries → List CItem
+    | [] => []
+    | (k, v) :: es => .entry k (embV v) :: embEs es
+end
+
+theorem ctoks_emb : ∀ (es : SrcEntries), ctoksItems (embEs es) = (srcToksEs es).map .tok
+  | [] => by simp only [embEs, ctoksItems, srcToksEs, List.map_nil]
+  | (k, .lit l) :: es => by
+    simp only [embEs, embV, ctoksItems, srcToksEs, List.map_cons, ctoks_emb es]
+  | (k, .dict d) :: es => by
+    simp only [embEs, embV, ctoksItems, srcToksEs, List.map_cons, List.map_append, List.map_nil, ctoks_emb es, ctoks_emb d,
+      List.cons_append, List.nil_append, List.append_assoc]
+  | (k, .list l) :: es => by
+    simp only [embEs, embV, ctoksItems, srcToksEs, List.map_cons, List.map_append, List.map_nil, ctoks_emb es,
+      List.cons_append, List.nil_append, List.append_assoc]
+
+theorem wf_emb : ∀ (es : SrcEntries) (d : Nat), SrcWFEs d es = true → CSrcWFItems d (embEs es) = true
+  | [], _, _ => by simp only [embEs, CSrcWFItems]
+  | (k, .lit l) :: es, d, h => by
+    simp only [SrcWFEs, SrcWFV, Bool.and_eq_true] at h
+    simp only [embEs, embV, CSrcWFItems, CSrcWFV, Bool.and_eq_true]
+    exact ⟨⟨⟨h.1.1.1, h.1.1.2⟩, h.1.2⟩, wf_emb es d h.2⟩
+  | (k, .dict dd) :: es, d, h => by
+    simp only [SrcWFEs, SrcWFV, Bool.and_eq_true] at h
+    simp only [embEs, embV, CSrcWFItems, CSrcWFV, Bool.and_eq_true]
+    exact ⟨⟨⟨h.1.1.1, h.1.1.2⟩, wf_emb dd (d + 1) h.1.2⟩, wf_emb es d h.2⟩
+  | (k, .list l) :: es, d, h => by
+    simp only [SrcWFEs, SrcWFV, Bool.and_eq_true] at h
+    simp only [embEs, embV, CSrcWFItems, CSrcWFV, Bool.and_eq_true]
+    exact ⟨⟨⟨h.1.1.1, h.1.1.2⟩, h.1.2⟩, wf_emb es d h.2⟩
+
+theorem plain_emb : ∀ (es : SrcEntries), plainItems (embEs es) = es
+  | [] => by simp only [embEs, plainItems]
+  | (k, .lit l) :: es => by simp only [embEs, embV, plainItems, plainV, plain_emb es]
+  | (k, .dict d) :: es => by simp only [embEs, embV, plainItems, plainV, plain_emb es, plain_emb d]
+  | (k, .list l) :: es => by simp only [embEs, embV, plainItems, plainV, plain_emb es]
+
+theorem label_emb : ∀ (es : SrcEntries) (st : CLabelSt), labelCItems st (embEs es) = (st, es)
+  | [], st => by simp only [embEs, labelCItems]
+  | (k, .lit l) :: es, st => by simp only [embEs, embV, labelCItems, labelCV, label_emb es]
+  | (k, .dict d) :: es, st => by simp only [embEs, embV, labelCItems, labelCV, label_emb es, label_emb d]
+  | (k, .list l) :: es, st => by simp only [embEs, embV, labelCItems, labelCV, label_emb es]
+
+/-! ## the Foam header as a commented document -/
+
+def ffSrc : SrcEntries :=
+  [("version".toList, .lit (.bare "2.0".toList)), ("format".toList, .lit (.bare "ascii".toList)),
+   ("class".toList, .lit (.bare "dictionary".toList)), ("object".toList, .lit (.bare "foamDict".toList))]
+
+def hdrItemsF : List CItem :=
+  [.blockC bannerBody, .entry "FoamFile".toList (.dict (embEs ffSrc)), .lineC lcBody]
+
+/-- the value of the `FoamFile` entry as the reader types it -/
+def ffVal : Val :=
+  .dict [(.str "version".toList, .leaf (.float "2.0".toList)), (.str "format".toList, .leaf (.str "ascii".toList)),
+         (.str "class".toList, .leaf (.str "dictionary".toList)), (.str "object".toList, .leaf (.str "foamDict".toList))]
+
+def ffKey : Key := .str "FoamFile".toList
+def ffEntry : Key × Val := (ffKey, ffVal)
+def lcEntry (n : Nat) : Key × Val := (.str (linePh n), .leaf (.str (linePh n)))
+
+/-- what the reader returns for a Foam file with the header: banner placeholder, `FoamFile` block, separator
+    placeholder, then the data; the banner in the block-comment table, the separator in the line-comment table -/
+def foamSD (n : Nat) (D : Entries) : SD :=
+  { data := C12.hdrEntry :: ffEntry :: lcEntry n :: D, blockC := [(0, bannerC)], lineC := [(n, lcText)] }
+
+/-- the tokens of the header -/
+def hdrToksF : List CTok :=
+  [.blockC bannerBody, .tok (.word "FoamFile".toList), .tok (.word ['{']),
+   .tok (.word "version".toList), .tok (.word "2.0".toList), .tok (.word [';']),
+   .tok (.word "format".toList), .tok (.word "ascii".toList), .tok (.word [';']),
+   .tok (.word "class".toList), .tok (.word "dictionary".toList), .tok (.word [';']),
+   .tok (.word "object".toList), .tok (.word "foamDict".toList), .tok (.word [';']),
+   .tok (.word ['}']), .lineC lcBody]
+
+theorem ctoks_hdrF (r : List CItem) : ctoksItems (hdrItemsF ++ r) = hdrToksF ++ ctoksItems r := by
+  simp only [hdrItemsF, ffSrc, embEs, embV, List.cons_append, List.nil_append, ctoksItems, hdrToksF, Lit.tok]
+
+/-- the gaps of the header: a line feed in front (put there for the reader theorem), then as the header spells them -/
+def hdrGapsF : List Str :=
+  [['\n'], ['\n'], ['\n'], "\n    ".toList, spaces 19, [], "\n    ".toList, spaces 20, [], "\n    ".toList, spaces 21, [],
+   "\n    ".toList, spaces 20, [], ['\n'], ['\n']]
+
+theorem spread_tail : ∀ (ts gs : List Str) (tail : Str), spread ts gs tail = spread ts gs [] ++ tail
+  | [], _, _ => rfl
+  | t :: ts, [], tail => by simp only [spread, spread_tail ts [] tail, List.append_assoc]
+  | t :: ts, g :: gs, tail => by simp only [spread, spread_tail ts gs tail, List.append_assoc]
+
+theorem spread_append : ∀ (ts₁ gs₁ ts₂ gs₂ : List Str) (tail : Str), ts₁.length = gs₁.length →
+    spread (ts₁ ++ ts₂) (gs₁ ++ gs₂) tail = spread ts₁ gs₁ (spread ts₂ gs₂ tail)
+  | [], [], _, _, _, _ => rfl
+  | [], _ :: _, _, _, _, h => by simp at h
+  | _ :: _, [], _, _, _, h => by simp at h
+  | t :: ts, g :: gs, ts₂, gs₂, tail, h => by
+    simp only [List.cons_append, spread]
+    rw [spread_append ts gs ts₂ gs₂ tail (by simpa using h)]
+
+theorem hdr_layout (rest : Str) :
+    spread (hdrToksF.map CTok.text) hdrGapsF rest = '\n' :: (bannerC ++ '\n' :: ffText ++ lcText) ++ rest := by
+  have : spread (hdrToksF.map CTok.text) hdrGapsF [] = '\n' :: (bannerC ++ '\n' :: ffText ++ lcText) := by decide +kernel
+  rw [spread_tail, this]
+
+theorem hdrF_lengths : (hdrToksF.map CTok.text).length = hdrGapsF.length := by decide
+
+theorem hdrGaps_ok_nil (tail : Str) (ht : tail.all isWs = true) : GapsOKC hdrToksF hdrGapsF ('\n' :: tail) = true := by
+  simp [hdrToksF, hdrGapsF, GapsOKC, isDelimSTok, isDelimTok, ht, spaces]
+  decide
+
+theorem hdrGaps_ok_cons (t : CTok) (ts : List CTok) (g : Str) (gs : List Str) (tail : Str)
+    (h : GapsOKC (t :: ts) (('\n' :: g) :: gs) tail = true) :
+    GapsOKC (hdrToksF ++ t :: ts) (hdrGapsF ++ ('\n' :: g) :: gs) tail = true := by
+  simp [hdrToksF, hdrGapsF, GapsOKC, isDelimSTok, isDelimTok, spaces, h]
+  decide
+
+/-- **the layout of a Foam file with header**: a line feed, the header, the writer's text of the entries — an
+    admissible layout of the header tokens followed by the source tokens -/
+theorem foam_layout (ts : List STok) (gaps : List Str) (tail : Str) (hg : GapsOKS ts gaps = true)
+    (ht : tail.all isWs = true) :
+    ∃ G tail', spreadC (hdrToksF ++ ts.map .tok) G tail' = '\n' :: (foamHeader ++ spreadS ts gaps tail) ∧
+      GapsOKC (hdrToksF ++ ts.map .tok) G tail' = true := by
+  cases ts with
+  | nil =>
+    refine ⟨hdrGapsF, '\n' :: tail, ?_, ?_⟩
+    · simp only [List.map_nil, List.append_nil, spreadC, hdr_layout, foamHeader_split, spreadS, spread]
+      simp
+    · simpa using hdrGaps_ok_nil tail ht
+  | cons t ts' =>
+    have e := C09.spreadC_padG (t :: ts') gaps tail
+    have k1 := C09.gapsOKC_padG tail ht (t :: ts') gaps hg
+    obtain ⟨g, gs, hp⟩ : ∃ g gs, C09.padG (t :: ts') gaps = g :: gs := by
+      cases gaps <;> exact ⟨_, _, rfl⟩
+    rw [hp] at e k1
+    simp only [List.map_cons] at e k1 ⊢
+    refine ⟨hdrGapsF ++ ('\n' :: g) :: gs, tail, ?_, hdrGaps_ok_cons _ _ g gs tail (C12.Incl.gapsOKC_nl k1)⟩
+    have e2 : spreadC (CTok.tok t :: ts'.map CTok.tok) (('\n' :: g) :: gs) tail =
+        '\n' :: spreadC (CTok.tok t :: ts'.map CTok.tok) (g :: gs) tail :=
+      C12.Incl.spreadC_nl _ g gs tail (by simp)
+    unfold spreadC at e e2 ⊢
+    rw [List.map_append, spread_append _ _ _ _ _ hdrF_lengths, hdr_layout, e2, e, foamHeader_split]
+    simp
+
+/-! ## `_clean` on the SDict of a Foam file with header -/
+
+theorem levelFix_noPh (s : SD) {D : Entries} (hk : ∀ k ∈ keys D, C07.isPhKey k = false) (hn : (keys D).Nodup) :
+    C12W.levelFix s D := by
+  have key : ∀ sel : Key → Bool, (∀ k, sel k = true → C07.isPhKey k = true) → (keys D).filter sel = [] := by
+    intro sel hsel
+    apply List.filter_eq_nil_iff.mpr
+    intro k hk' hs
+    have := hk k hk'
+    rw [hsel k hs] at this
+    exact absurd this (by decide)
+  have hB := key C12W.selB (by intro k hk; cases k <;> simp_all [C12W.selB, C07.isPhKey])
+  have hI := key C12W.selI (by intro k hk; cases k <;> simp_all [C12W.selI, C07.isPhKey])
+  have hL := key C12W.selL (by intro k hk; cases k <;> simp_all [C12W.selL, C07.isPhKey])
+  refine ⟨?_, hI, ?_, hn⟩
+  · rw [hB]; exact List.nodup_nil
+  · rw [hL]; exact List.nodup_nil
+
+mutual
+  theorem subsFix_noPhV (s : SD) : ∀ v : Val, C07.NoPhV v → NodupKeysV v →
+      ∀ sub, v = .dict sub → C12W.levelFix s sub ∧ C12W.subsFix s sub
+    | .leaf _, _, _, _, e => by cases e
+    | .list _, _, _, _, e => by cases e
+    | .dict es, hp, hn, sub, e => by
+      cases e
+      exact ⟨levelFix_noPh s (C12.noPh_keys hp) hn.1, subsFix_noPh s es hp hn.2⟩
+  theorem subsFix_noPh (s : SD) : ∀ D : Entries, C07.NoPhEs D → NodupKeysEs D → C12W.subsFix s D
+    | [], _, _ => by simp only [C12W.subsFix, C12W.allLevels]
+    | (k, .leaf x) :: r, hp, hn => by
+      simp only [C12W.subsFix, C12W.allLevels]; exact subsFix_noPh s r hp.2.2 hn.2
+    | (k, .list xs) :: r, hp, hn => by
+      simp only [C12W.subsFix, C12W.allLevels]; exact subsFix_noPh s r hp.2.2 hn.2
+    | (k, .dict sub) :: r, hp, hn => by
+      simp only [C12W.subsFix, C12W.allLevels]
+      exact ⟨subsFix_noPhV s (.dict sub) hp.2.1 hn.1 sub rfl, subsFix_noPh s r hp.2.2 hn.2⟩
+end
+
+theorem linePh_eq (n : Nat) : linePh n = C12W.phWord true n := rfl
+
+theorem ffVal_noPh : C07.NoPhV ffVal := by
+  simp only [ffVal, C07.NoPhV, C07.NoPhEs, and_true]
+  decide +kernel
+
+theorem ffVal_nodup : NodupKeysV ffVal := by
+  simp only [ffVal, NodupKeysV, NodupKeysEs, and_true, keys, List.map_cons, List.map_nil]
+  decide +kernel
+
+theorem ffKey_sel : C12W.selB ffKey = false ∧ C12W.selI ffKey = false ∧ C12W.selL ffKey = false := by decide +kernel
+
+theorem hdrKey_sel : C12W.selB (.str C12.hdrPh) = true ∧ C12W.selI (.str C12.hdrPh) = false ∧
+    C12W.selL (.str C12.hdrPh) = false := by decide +kernel
+
+theorem lcKey_sel {n : Nat} (hn : n ≤ 999999) : C12W.selB (.str (linePh n)) = false ∧
+    C12W.selI (.str (linePh n)) = false ∧ C12W.selL (.str (linePh n)) = true := by
+  have h3 : containsPh kwLine (C12W.phWord true n) = true := C12W.containsPh_own true hn
+  simp only [C12W.selB, C12W.selI, C12W.selL, linePh_eq, C12W.containsPh_block_line, C12W.containsPh_incl_ph, h3]
+  decide
+
+theorem sel_noPh {k : Key} (h : C07.isPhKey k = false) :
+    C12W.selB k = false ∧ C12W.selI k = false ∧ C12W.selL k = false := by
+  cases k with
+  | int z => exact ⟨rfl, rfl, rfl⟩
+  | str x =>
+    simp only [C07.isPhKey, Bool.or_eq_false_iff] at h
+    simp [C12W.selB, C12W.selI, C12W.selL, h.1.1, h.1.2, h.2]
+
+theorem filter_sel_noPh {D : Entries} (hk : ∀ k ∈ keys D, C07.isPhKey k = false) :
+    (keys D).filter C12W.selB = [] ∧ (keys D).filter C12W.selI = [] ∧ (keys D).filter C12W.selL = [] := by
+  refine ⟨?_, ?_, ?_⟩ <;> apply List.filter_eq_nil_iff.mpr <;> intro k hk'
+  · rw [(sel_noPh (hk k hk')).1]; decide
+  · rw [(sel_noPh (hk k hk')).2.1]; decide
+  · rw [(sel_noPh (hk k hk')).2.2]; decide
+
+theorem lcKey_ne (n : Nat) : Key.str (linePh n) ≠ .str C12.hdrPh ∧ Key.str (linePh n) ≠ ffKey := by
+  have e : linePh n = 'L' :: ("INECOMMENT".toList ++ padSix n) := rfl
+  constructor
+  · intro h; rw [e, C12.hdrPh_eq] at h; cases h
+  · intro h; rw [e] at h; cases h
+
+theorem lcKey_isPh {n : Nat} (hn : n ≤ 999999) : C07.isPhKey (.str (linePh n)) = true := by
+  have h3 : containsPh kwLine (C12W.phWord true n) = true := C12W.containsPh_own true hn
+  simp only [C07.isPhKey, linePh_eq, h3, Bool.or_true]
+
+/-- `_clean` leaves the SDict of a Foam file with header as it is -/
+theorem clean_foam (s : SD) (n : Nat) (hn : n ≤ 999999) (D : Entries) (tb tl : Str)
+    (hd : s.data = C12.hdrEntry :: ffEntry :: lcEntry n :: D) (hb : s.blockC = [(0, tb)]) (hl : s.lineC = [(n, tl)])
+    (hp : C07.NoPhEs D) (hnd : NodupKeysV (.dict D)) (hff : ffKey ∉ keys D) : s.clean = s := by
+  have hk := C12.noPh_keys hp
+  obtain ⟨fB, fI, fL⟩ := filter_sel_noPh hk
+  obtain ⟨l1, l2, l3⟩ := lcKey_sel hn
+  have hkeys : keys s.data = .str C12.hdrPh :: ffKey :: .str (linePh n) :: keys D := by rw [hd]; rfl
+  have hnoL : Key.str (linePh n) ∉ keys D := fun hm => by
+    have := hk _ hm; rw [lcKey_isPh hn] at this; cases this
+  apply C12W.clean_fix
+  · refine ⟨?_, ?_, ?_, ?_⟩
+    · rw [hkeys, hb]
+      simp only [List.filter_cons, hdrKey_sel.1, ffKey_sel.1, l1, fB, if_true, Bool.false_eq_true, if_false,
+        List.filterMap_cons, List.filterMap_nil, C12W.look, C12.hdrPh_digits, Option.bind, Tbl.get?]
+      exact List.nodup_cons.mpr ⟨by simp, List.nodup_nil⟩
+    · rw [hkeys]
+      simp only [List.filter_cons, hdrKey_sel.2.1, ffKey_sel.2.1, l2, fI, Bool.false_eq_true, if_false]
+    · rw [hkeys, hl]
+      have hf : firstSixDigits (linePh n) = some n := C12W.firstSix_ph true hn
+      simp only [List.filter_cons, hdrKey_sel.2.2, ffKey_sel.2.2, l3, fL, if_true, Bool.false_eq_true, if_false,
+        List.filterMap_cons, List.filterMap_nil, C12W.look, hf, Option.bind, Tbl.get?]
+      exact List.nodup_cons.mpr ⟨by simp, List.nodup_nil⟩
+    · rw [hkeys]
+      refine List.nodup_cons.mpr ⟨?_, List.nodup_cons.mpr ⟨?_, List.nodup_cons.mpr ⟨hnoL, hnd.1⟩⟩⟩
+      · intro hm
+        rcases List.mem_cons.mp hm with h | hm
+        · cases h
+        · rcases List.mem_cons.mp hm with h | hm
+          · exact (lcKey_ne n).1 h.symm
+          · exact C12.hdr_not_mem hp hm
+      · intro hm
+        rcases List.mem_cons.mp hm with h | hm
+        · exact (lcKey_ne n).2 h.symm
+        · exact hff hm
+  · rw [hd]
+    simp only [C12W.subsFix, C12W.allLevels, C12.hdrEntry, ffEntry, lcEntry, ffVal]
+    exact ⟨⟨(subsFix_noPhV s ffVal ffVal_noPh ffVal_nodup _ rfl).1, trivial⟩, subsFix_noPh s D hp hnd.2⟩
+
+/-! ## the reader on a Foam file with header -/
+
+theorem hdrItemsF_wf : CSrcWFItems 1 hdrItemsF = true := by decide +kernel
+
+theorem docKeys_src_f {es : Entries} (h : C01.DocKeysAbsent' es) : C02.DocKeysAbsent (srcOfEs .foam es) := by
+  induction es with
+  | nil => intro e he; simp [srcOfEs] at he
+  | cons a es ih =>
+    obtain ⟨k, v⟩ := a
+    intro e he
+    simp only [srcOfEs, List.mem_cons] at he
+    rcases he with rfl | he
+    · have hk := h (k, v) List.mem_cons_self
+      cases k with
+      | str s => exact ⟨fun e => hk.1 (by rw [← e]; rfl), fun e => hk.2 (by rw [← e]; rfl)⟩
+      | int z =>
+        have hn := (C01.intRepr_numChars z).2
+        have hu : '_' ∉ C01.numChars := by decide
+        refine ⟨fun e => hu (hn '_' ?_), fun e => hu (hn '_' ?_)⟩
+        · show '_' ∈ intRepr z
+          have : intRepr z = "_variables".toList := e
+          rw [this]; decide
+        · show '_' ∈ intRepr z
+          have : intRepr z = "_includes".toList := e
+          rw [this]; decide
+    · exact ih (fun e he => h e (List.mem_cons_of_mem _ he)) e he
+
+theorem dom_keys {fl : Flavor} {d : Nat} : ∀ {E : Entries}, domEs fl d E = true → ∀ k ∈ keys E, isDomKey k = true
+  | [], _, k, hk => by simp at hk
+  | (k0, v0) :: E, h, k, hk => by
+    simp only [domEs, Bool.and_eq_true] at h
+    rcases List.mem_cons.mp hk with rfl | hk
+    · exact h.1.1
+    · exact dom_keys h.2 k hk
+
+theorem domKey_notPhTok {s : Str} (h : isDomKey (.str s) = true) : isPhTok s = false := by
+  simp only [isDomKey, isSrcWord, Bool.and_eq_true, Bool.not_eq_true'] at h
+  exact h.1.1.1.1.1.1.1.1.2
+
+theorem next_le {c : Counter} (hc : C13.ValidCounter Gen.counterLimit c) :
+    (Counter.next Gen.counterLimit c).1 ≤ Gen.counterLimit := by
+  rcases hc with rfl | ⟨n, rfl, hn⟩
+  · exact Nat.zero_le _
+  · simp only [Counter.next]
+    split
+    · exact Nat.zero_le _
+    · omega
+
+theorem label_hdrF (c : Counter) (src : SrcEntries) :
+    labelCItems { counter := c } (hdrItemsF ++ embEs src) =
+      ({ counter := (Counter.next Gen.counterLimit c).2, lineC := [((Counter.next Gen.counterLimit c).1, lcText)],
+         blockC := [(0, bannerC)] },
+       (blockPh 0, .lit (.bare (blockPh 0))) :: ("FoamFile".toList, .dict ffSrc) ::
+         (linePh (Counter.next Gen.counterLimit c).1, .lit (.bare (linePh (Counter.next Gen.counterLimit c).1))) :: src) := by
+  rw [bannerC_shape]
+  simp only [hdrItemsF, List.cons_append, List.nil_append, labelCItems, labelCV, label_emb, Tbl.set, List.length_nil,
+    ← lcText_shape]
+
+theorem ffSrc_den : denPV (.dict ffSrc) = ffVal := by decide +kernel
+theorem ffKey_parse : isPhTok "FoamFile".toList = false ∧ keyOfScalar (parseKey "FoamFile".toList) = some ffKey := by
+  decide +kernel
+
+/-- the data the labelled document of a Foam file with header denotes -/
+theorem den_hdrF {E : Entries} (n : Nat) (hdom : DomC01 .foam E = true) (hff : ffKey ∉ keys E) :
+    denPEs ((blockPh 0, .lit (.bare (blockPh 0))) :: ("FoamFile".toList, .dict ffSrc) ::
+        (linePh n, .lit (.bare (linePh n))) :: srcOfEs .foam E) [] =
+      C12.hdrEntry :: ffEntry :: lcEntry n :: normEs E := by
+  have hd : domEs .foam 1 E = true ∧ (keys E).Nodup := by
+    simpa only [DomC01, Bool.and_eq_true, decide_eq_true_eq] using hdom
+  have hwf := C10.Foam.srcOf_wf_f 1 E hd.1
+  have hkd := dom_keys hd.1
+  have hb : isPhTok (blockPh 0) = true := (C12.blockPh_tok 0).2
+  have hl : isPhTok (linePh n) = true := (C12.linePh_tok n).2
+  rw [C12.denPEs_cons_ph hb, C12.denPEs_cons ffKey_parse.1 ffKey_parse.2, ffSrc_den,
+    C12.denPEs_cons_ph hl, C12.denPEs_plain _ 1 _ hwf]
+  have e : setKey (Key.str (linePh n)) (Val.leaf (Scalar.str (linePh n)))
+      (setKey ffKey ffVal (setKey (Key.str (blockPh 0)) (Val.leaf (Scalar.str (blockPh 0))) [])) =
+      [C12.hdrEntry, ffEntry, lcEntry n] := by
+    have h1 : ¬ Key.str (blockPh 0) = ffKey := by decide +kernel
+    have h2 : ¬ Key.str (blockPh 0) = Key.str (linePh n) := fun h => (lcKey_ne n).1 h.symm
+    have h3 : ¬ ffKey = Key.str (linePh n) := fun h => (lcKey_ne n).2 h.symm
+    simp only [setKey, h1, h2, h3, if_false]
+    rfl
+  rw [e, C10.Foam.den_srcOfEs_f 1 E _ hd.1 hd.2]
+  · rfl
+  · intro k hk hm
+    have hdk := hkd k hk
+    simp only [keys, List.map_cons, List.map_nil, List.mem_cons, List.not_mem_nil, or_false] at hm
+    rcases hm with rfl | rfl | rfl
+    · have := domKey_notPhTok hdk
+      rw [show C12.hdrEntry.1 = Key.str (blockPh 0) from rfl] at hdk
+      have := domKey_notPhTok hdk
+      rw [hb] at this; cases this
+    · exact hff hk
+    · have := domKey_notPhTok hdk
+      rw [hl] at this; cases this
+
+/-- **the native reader on a Foam file with header** (comments on): for a dict `E` of the Foam value domain without
+    private keys and without a `FoamFile` key, the text `foamHeader ++ fmtPlain .foam E` is read as `normEs E` behind
+    the banner placeholder entry, the `FoamFile` dict and the separator placeholder entry; the id of the separator
+    comes from the counter -/
+theorem parse_foam_hdr {E : Entries} {c : Counter} (dir : Str)
+    (hdom : DomC01 .foam E = true) (hu : C10.NoUnderscoreEs E) (hdoc : C01.DocKeysAbsent' E) (hff : ffKey ∉ keys E)
+    (hcnt : C02.countQuotedEs (srcOfEs .foam E) ≤ Gen.counterLimit + 1)
+    (hc : C13.ValidCounter Gen.counterLimit c) :
+    ∃ c', C13.ValidCounter Gen.counterLimit c' ∧
+      parseNative true dir c (foamHeader ++ fmtPlain .foam E) =
+        .ok (foamSD (Counter.next Gen.counterLimit c).1 (normEs E), c') := by
+  have hd : domEs .foam 1 E = true ∧ (keys E).Nodup := by
+    simpa only [DomC01, Bool.and_eq_true, decide_eq_true_eq] using hdom
+  have hwf := C10.Foam.srcOf_wf_f 1 E hd.1
+  obtain ⟨gaps, tail, etext, hg, ht⟩ := C10.Foam.fmtPlain_is_layout_f hdom hu
+  obtain ⟨G, tail', hlay, hG⟩ := foam_layout _ gaps tail hg ht
+  have hitems : ctoksItems (hdrItemsF ++ embEs (srcOfEs .foam E)) = hdrToksF ++ (srcToksEs (srcOfEs .foam E)).map .tok := by
+    rw [ctoks_hdrF, ctoks_emb]
+  have hplain : plainItems (hdrItemsF ++ embEs (srcOfEs .foam E)) =
+      ("FoamFile".toList, .dict ffSrc) :: srcOfEs .foam E := by
+    simp only [hdrItemsF, List.cons_append, List.nil_append, plainItems, plainV, plain_emb]
+  have hread := C12.C12_read_commented (items := hdrItemsF ++ embEs (srcOfEs .foam E)) (gaps := G) (tail := tail') dir c
+    (by rw [C12W.wfI_append, hdrItemsF_wf, wf_emb _ 1 hwf]; rfl) (by rw [hitems]; exact hG)
+    (fun h => by simp [hdrItemsF] at h) hc
+    (by rw [hplain]; simpa [C02.countQuotedEs, C02.countQuotedV, ffSrc] using hcnt)
+    (by
+      rw [hplain]
+      intro e he
+      rcases List.mem_cons.mp he with rfl | he
+      · exact ⟨by decide, by decide⟩
+      · exact docKeys_src_f hdoc e he)
+  rw [hitems, hlay, C12W.parseNative_nl, ← etext] at hread
+  have hden : denC c (hdrItemsF ++ embEs (srcOfEs .foam E)) =
+      foamSD (Counter.next Gen.counterLimit c).1 (normEs E) := by
+    simp only [denC, label_hdrF, den_hdrF _ hdom hff]
+    have hinv := C10.norm_invariants_foam hdom
+    exact clean_foam _ _ (next_le hc) (normEs E) bannerC lcText rfl rfl rfl hinv.1 hinv.2
+      (by rw [C01.keys_normEs]; exact hff)
+  rw [hden] at hread
+  exact ⟨_, C02.adv_valid _ (by rw [label_hdrF]; exact C13.next_valid hc), hread⟩
+
+theorem foamSD_nodup {n : Nat} (hn : n ≤ 999999) {D : Entries} (hp : C07.NoPhEs D) (hnd : NodupKeysV (.dict D))
+    (hff : ffKey ∉ keys D) : NodupKeysV (.dict (foamSD n D).data) := by
+  have hk := C12.noPh_keys hp
+  have hnoL : Key.str (linePh n) ∉ keys D := fun hm => by
+    have := hk _ hm; rw [lcKey_isPh hn] at this; cases this
+  refine ⟨?_, trivial, ffVal_nodup, trivial, hnd.2⟩
+  show (Key.str C12.hdrPh :: ffKey :: Key.str (linePh n) :: keys D).Nodup
+  refine List.nodup_cons.mpr ⟨?_, List.nodup_cons.mpr ⟨?_, List.nodup_cons.mpr ⟨hnoL, hnd.1⟩⟩⟩
+  · intro hm
+    rcases List.mem_cons.mp hm with h | hm
+    · cases h
+    · rcases List.mem_cons.mp hm with h | hm
+      · exact (lcKey_ne n).1 h.symm
+      · exact C12.hdr_not_mem hp hm
+  · intro hm
+    rcases List.mem_cons.mp hm with h | hm
+    · exact (lcKey_ne n).2 h.symm
+    · exact hff hm
+
+theorem foamSD_clean {n : Nat} (hn : n ≤ 999999) {D : Entries} (hp : C07.NoPhEs D) (hnd : NodupKeysV (.dict D))
+    (hff : ffKey ∉ keys D) : (foamSD n D).clean = foamSD n D :=
+  clean_foam _ n hn D bannerC lcText rfl rfl rfl hp hnd hff
+
+/-- `DictReader.read` (default options) on a file whose text parses to the SDict of a Foam file with header: the
+    stages above the parser change nothing -/
+theorem readFile_of_parse_foam {D : Entries} {n : Nat} {c c' : Counter} (ev : Str → EvalResult) (p : Comps) (text : Str)
+    (hparse : parseNative true (pathStr p.dropLast) c text = .ok (foamSD n D, c'))
+    (hn : n ≤ 999999) (hp : C07.NoPhEs D) (hnd : NodupKeysV (.dict D)) (hff : ffKey ∉ keys D)
+    (hj : isJsonPath p = false) (hx : isXmlPath p = false) (hr : resolveSpelled p = p) :
+    readFile ev [(p, .native text)] {} c p = .ok (.ok (foamSD n D) c') := by
+  have hcl := foamSD_clean hn hp hnd hff
+  have hmi := C01.mergeIncludes_clean [(p, .native text)] true (foamSD n D) p.dropLast c' rfl hcl
+    (foamSD_nodup hn hp hnd hff)
+  have hev := C01.evalExpressions_noexpr ev (foamSD n D) rfl
+  have hpf : parseFile [(p, .native text)] true c p = .ok (foamSD n D, c') := by
+    simp only [parseFile, hx, hr, C01.fs_get_single, hj, hparse]
+    rfl
+  simp only [readFile, hpf, bind, Except.bind, pure, Except.pure]
+  simp only [if_true, hmi, hev]
+  rfl
+
+/-! ## the Foam writer on the SDict of a Foam file with header -/
+
+theorem phWord_format_foam (l : Bool) (i : Nat) : formatString .foam (C12W.phWord l i) = C12W.phWord l i := by
+  refine C04.formatString_of_bare ⟨C12W.phWord_ne l i, ?_, ?_, ?_⟩
+  · cases hc : (C12W.phWord l i).contains '$' with
+    | false => rfl
+    | true => exact absurd rfl (C12W.phWord_chars l i _ (List.contains_iff_mem.mp hc)).2.2.2.1
+  · simp only [List.all_eq_true, Bool.and_eq_true, Bool.not_eq_true']
+    exact fun c hc => ⟨(C12W.phWord_chars l i c hc).2.2.1, (C12W.phWord_chars l i c hc).2.2.2.2.1⟩
+  · apply C01.startsInclude_of_head
+    intro h
+    exact (C12W.phWord_chars l i '#' (List.mem_of_mem_head? h)).2.2.2.2.2.1 rfl
+
+theorem hdrPh_eq_phWord : C12.hdrPh = C12W.phWord false 0 := rfl
+
+theorem fmtEntries_cons (fl : Flavor) (lvl : Nat) (e : Key × Val) (r : Entries) :
+    fmtEntries fl lvl (e :: r) = fmtEntries fl lvl [e] ++ fmtEntries fl lvl r := by
+  obtain ⟨k, v⟩ := e
+  cases v <;> simp [fmtEntries]
+
+theorem ff_fmt : fmtEntries .foam 0 [ffEntry] = ffText := by
+  simp only [ffEntry, ffVal, ffKey, fmtEntries, formatKey, keyStr, formatScalar]
+  decide +kernel
+theorem ff_drop : dropUnderscoreV .foam ffVal = ffVal := by decide +kernel
+theorem ffKey_fmt : (formatKey .foam ffKey).head? ≠ some '_' := by decide +kernel
+
+/-- the separator placeholder line -/
+def lcLine (n : Nat) : Str := linePh n ++ spaces 13 ++ linePh n ++ [';']
+
+theorem hdr_fmt : fmtEntries .foam 0 [C12.hdrEntry] = C12.hdrPh ++ spaces 12 ++ C12.hdrPh ++ [';'] ++ ['\n'] := by
+  have hf := phWord_format_foam false 0
+  rw [← hdrPh_eq_phWord] at hf
+  simp only [C12.hdrEntry, fmtEntries, fline, formatKey, formatScalar, hf, C12.hdrPh_len, spaces]
+  simp [List.replicate]
+
+theorem lc_fmt {n : Nat} (hn : n ≤ 999999) : fmtEntries .foam 0 [lcEntry n] = lcLine n ++ ['\n'] := by
+  have hf := phWord_format_foam true n
+  rw [← linePh_eq] at hf
+  have hl : (linePh n).length = 17 := C12W.phWord_length true hn
+  simp only [lcEntry, lcLine, fmtEntries, fline, formatKey, formatScalar, hf, hl, spaces]
+  simp [List.replicate]
+
+theorem noInfix_append_of_head {p : Str} {c : Char} {p' : Str} (hp : p = c :: p') : ∀ (x : Str) {y : Str}, c ∉ x →
+    isInfix p y = false → isInfix p (x ++ y) = false
+  | [], _, _, hy => hy
+  | a :: x, y, hx, hy => by
+    have ha : ¬ c = a := fun e => hx (by simp [e])
+    have ih := noInfix_append_of_head hp x (fun h => hx (List.mem_cons_of_mem _ h)) hy
+    rw [List.cons_append, C02.isInfix_cons, ih, hp]
+    simp [List.isPrefixOf, ha]
+
+theorem ffText_noBL : 'B' ∉ ffText ∧ 'L' ∉ ffText ∧ 'L' ∉ bannerC := by decide +kernel
+
+theorem linePh_noB (n : Nat) : 'B' ∉ linePh n := C12W.linePh_no_B n
+
+theorem lcLine_noB (n : Nat) : 'B' ∉ lcLine n := by
+  intro h
+  simp only [lcLine, List.mem_append, List.mem_singleton] at h
+  rcases h with ((h | h) | h) | h
+  · exact linePh_noB n h
+  · simp [spaces] at h
+  · exact linePh_noB n h
+  · cases h
+
+/-- the raw text of the entries of a Foam-domain dict contains no `COMMENT` -/
+theorem body_noComment {M : Entries} (h : DomC01 .foam M = true) :
+    isInfix C12.kwComment (fmtEntries .foam 0 M) = false := by
+  obtain ⟨gaps, tail, e, hg, ht⟩ := C10.Foam.fmt_is_layout_f h
+  have hd : domEs .foam 1 M = true := by
+    simp only [DomC01, Bool.and_eq_true] at h; exact h.1
+  rw [e]
+  exact C12.noComment_spread _ gaps tail (C02.srcToks_ok 1 _ (C10.Foam.srcOf_wf_f 1 M hd)) hg ht
+
+theorem noLinePh_of_noComment (n : Nat) {s : Str} (h : isInfix C12.kwComment s = false) :
+    isInfix (kwLine ++ padSix n) s = false := by
+  cases hc : isInfix (kwLine ++ padSix n) s with
+  | false => rfl
+  | true =>
+    have : isInfix C12.kwComment (kwLine ++ padSix n) = true :=
+      C01.isInfix_iff.mpr ⟨"LINE".toList, padSix n, rfl⟩
+    rw [C02.Front.isInfix_trans this hc] at h; cases h
+
+def keyB (k : Key) : Bool := match k with | .str x => containsPh kwBlock x | _ => false
+def keyI (k : Key) : Bool := match k with | .str x => containsPh kwIncl x | _ => false
+
+/-- a block-comment placeholder entry in front of entries that are neither block-comment nor include placeholders:
+    the writer's reordering changes nothing -/
+theorem hoist_front (h : Key × Val) (L : Entries) (hh : keyB h.1 = true)
+    (hL : ∀ e ∈ L, keyB e.1 = false ∧ keyI e.1 = false) : hoistPlaceholders (h :: L) = h :: L := by
+  unfold hoistPlaceholders
+  refine hoist3 _ _ (fun e : Key × Val => keyB e.1) (h :: L) h L ?_ ?_ ?_ ?_
+  · rw [List.filter_cons, if_pos hh]
+    congr 1
+    exact List.filter_eq_nil_iff.mpr fun e he => by rw [(hL e he).1]; decide
+  · rw [List.filter_cons, if_neg (by simp [hh])]
+    exact List.filter_eq_self.mpr fun e he => by simp [(hL e he).1]
+  · intro e _
+    obtain ⟨k, v⟩ := e
+    cases k <;> rfl
+  · intro e he hne
+    rcases List.mem_cons.mp he with rfl | he
+    · rw [hh] at hne; cases hne
+    · have := (hL e he).2
+      obtain ⟨k, v⟩ := e
+      cases k
+      · rfl
+      · exact this
+
+theorem keyBI_noPh {k : Key} (h : C07.isPhKey k = false) : keyB k = false ∧ keyI k = false := by
+  cases k with
+  | int z => exact ⟨rfl, rfl⟩
+  | str x =>
+    simp only [C07.isPhKey, Bool.or_eq_false_iff] at h
+    exact ⟨h.1.1, h.1.2⟩
+
+/-- the writer's reordering leaves the top level of a Foam file with header as it is -/
+theorem hoist_foam (n : Nat) {M : Entries} (hM : ∀ k ∈ keys M, C07.isPhKey k = false) :
+    hoistPlaceholders (C12.hdrEntry :: ffEntry :: lcEntry n :: M) = C12.hdrEntry :: ffEntry :: lcEntry n :: M := by
+  apply hoist_front
+  · exact C12.hdrPh_block
+  · intro e he
+    rcases List.mem_cons.mp he with rfl | he
+    · exact ⟨by decide +kernel, by decide +kernel⟩
+    · rcases List.mem_cons.mp he with rfl | he
+      · exact ⟨C12W.containsPh_block_line n, C12W.containsPh_incl_ph true n⟩
+      · exact keyBI_noPh (hM e.1 (List.mem_map_of_mem he))
+
+theorem bannerC_facts : containsCpp bannerC = true ∧ isInfix "OpenFOAM".toList bannerC = true ∧ bannerC ≠ [] := by
+  decide +kernel
+
+/-- `remove_trailing_spaces` leaves the Foam header alone -/
+def hdrLinesF : List Str := (splitNl C10.foamHeaderChars).dropLast
+
+theorem hdrLinesF_join : hdrLinesF.flatMap (· ++ ['\n']) = C10.foamHeaderChars := by decide +kernel
+theorem hdrLinesF_good : ∀ l ∈ hdrLinesF, C12.goodLineB l = true := by decide +kernel
+theorem foamHeaderChars_noCr : ∀ c ∈ C10.foamHeaderChars, c ≠ '\r' := by decide +kernel
+
+theorem rts_foamHeader (t : Str) : removeTrailingSpaces (foamHeader ++ t) = foamHeader ++ removeTrailingSpaces t := by
+  rw [C01.removeTrailingSpaces_eq, C01.removeTrailingSpaces_eq, C10.foamHeader_eq,
+    C01.universalNl_solid _ _ foamHeaderChars_noCr, ← hdrLinesF_join, C12.rts_lines _ _ hdrLinesF_good]
+
+theorem insertLine_single (i : Nat) (t s : Str) : insertLineComments [(i, t)] s = (substPh kwLine i t s).1 := rfl
+
+/-- **the Foam writer on the SDict of a Foam file with header**: the banner and the separator are put back where
+    their placeholder entries stand, the `FoamFile` dict is written as the header spells it — the text is the header
+    followed by the plain text of the data, private keys dropped -/
+theorem fmtSD_foam {n : Nat} (hn : n ≤ 999999) {M : Entries}
+    (hdom : DomC01 .foam (dropUnderscoreEs .foam M) = true) :
+    fmtSD .foam (foamSD n M) = some (foamHeader ++ fmtPlain .foam M) := by
+  have hfL := phWord_format_foam true n
+  rw [← linePh_eq] at hfL
+  have hk1 : ((formatKey .foam C12.hdrEntry.1).head? == some '_') = false := by decide +kernel
+  have hk2 : ((formatKey .foam ffEntry.1).head? == some '_') = false := by decide +kernel
+  have hk3 : ((formatKey .foam (lcEntry n).1).head? == some '_') = false := by
+    show ((formatString .foam (linePh n)).head? == some '_') = false
+    rw [hfL]; rfl
+  have hdrop : dropUnderscoreEs .foam (foamSD n M).data =
+      C12.hdrEntry :: ffEntry :: lcEntry n :: dropUnderscoreEs .foam M := by
+    show dropUnderscoreEs .foam (C12.hdrEntry :: ffEntry :: lcEntry n :: M) = _
+    have e1 : ∀ r, dropUnderscoreEs .foam (C12.hdrEntry :: r) = C12.hdrEntry :: dropUnderscoreEs .foam r := fun r => by
+      show dropUnderscoreEs .foam ((C12.hdrEntry.1, C12.hdrEntry.2) :: r) = _
+      simp only [dropUnderscoreEs, hk1, Bool.false_eq_true, if_false]; rfl
+    have e2 : ∀ r, dropUnderscoreEs .foam (ffEntry :: r) = ffEntry :: dropUnderscoreEs .foam r := fun r => by
+      show dropUnderscoreEs .foam ((ffEntry.1, ffEntry.2) :: r) = _
+      simp only [dropUnderscoreEs, hk2, Bool.false_eq_true, if_false]
+      rw [show dropUnderscoreV .foam ffEntry.2 = ffVal from ff_drop]; rfl
+    have e3 : ∀ r, dropUnderscoreEs .foam (lcEntry n :: r) = lcEntry n :: dropUnderscoreEs .foam r := fun r => by
+      show dropUnderscoreEs .foam (((lcEntry n).1, (lcEntry n).2) :: r) = _
+      simp only [dropUnderscoreEs, hk3, Bool.false_eq_true, if_false]; rfl
+    rw [e1, e2, e3]
+  have hinv := C10.norm_invariants_foam hdom
+  have hkM : ∀ k ∈ keys (dropUnderscoreEs .foam M), C07.isPhKey k = false := by
+    have := C12.noPh_keys hinv.1
+    rwa [C01.keys_normEs] at this
+  have hnoC := body_noComment hdom
+  -- the raw text
+  have hraw : fmtEntries .foam 0 (C12.hdrEntry :: ffEntry :: lcEntry n :: dropUnderscoreEs .foam M) =
+      [] ++ (kwBlock ++ padSix 0) ++ spaces 12 ++ (kwBlock ++ padSix 0) ++ [';'] ++
+        ('\n' :: ffText ++ lcLine n ++ '\n' :: fmtEntries .foam 0 (dropUnderscoreEs .foam M)) := by
+    rw [fmtEntries_cons, fmtEntries_cons _ _ ffEntry, fmtEntries_cons _ _ (lcEntry n), hdr_fmt, ff_fmt, lc_fmt hn]
+    show _ = [] ++ C12.hdrPh ++ spaces 12 ++ C12.hdrPh ++ [';'] ++ _
+    simp
+  -- the banner is put back
+  have hR : isInfix (kwBlock ++ padSix 0)
+      ('\n' :: ffText ++ lcLine n ++ '\n' :: fmtEntries .foam 0 (dropUnderscoreEs .foam M)) = false := by
+    have h0 : isInfix C12.hdrPh ('\n' :: fmtEntries .foam 0 (dropUnderscoreEs .foam M)) = false := by
+      rw [C02.isInfix_cons, C12.noHdrPh_of_noComment hnoC, C12.hdrPh_eq]; rfl
+    have e : '\n' :: ffText ++ lcLine n ++ '\n' :: fmtEntries .foam 0 (dropUnderscoreEs .foam M) =
+        ('\n' :: ffText ++ lcLine n) ++ ('\n' :: fmtEntries .foam 0 (dropUnderscoreEs .foam M)) := by simp
+    rw [e]
+    refine noInfix_append_of_head (c := 'B') (p' := "LOCKCOMMENT".toList ++ padSix 0) rfl _ ?_ h0
+    intro h
+    simp only [List.cons_append, List.mem_cons, List.mem_append] at h
+    rcases h with h | h | h
+    · cases h
+    · exact ffText_noBL.1 h
+    · exact lcLine_noB n h
+  have hsubB : ∀ repl, substPh kwBlock 0 repl
+      (fmtEntries .foam 0 (C12.hdrEntry :: ffEntry :: lcEntry n :: dropUnderscoreEs .foam M)) =
+      (repl ++ ('\n' :: ffText ++ lcLine n ++ '\n' :: fmtEntries .foam 0 (dropUnderscoreEs .foam M)), true) := by
+    intro repl
+    rw [hraw, C12.C12_substPh_literal (kw := kwBlock) (c := 'B') (kw' := "LOCKCOMMENT".toList) (by decide) (by decide) 0
+      repl [] (spaces 12) _ (by simp) (by decide) (C01.spaces_ws 12), C12.substPh_noInfix kwBlock 0 repl _ hR]
+    rfl
+  have hblock : insertBlockComments .foam [(0, bannerC)]
+      (fmtEntries .foam 0 (C12.hdrEntry :: ffEntry :: lcEntry n :: dropUnderscoreEs .foam M)) =
+      bannerC ++ ('\n' :: ffText ++ lcLine n ++ '\n' :: fmtEntries .foam 0 (dropUnderscoreEs .foam M)) := by
+    have hmd : makeDefaultBlockComment .foam bannerC = bannerC := by
+      rw [C10.makeDefault_foam_of_cpp bannerC_facts.1, if_pos bannerC_facts.2.1]
+    rw [C10.insertBlock_single .foam 0 bannerC _ (by rw [hsubB]) (by rw [hmd]; exact bannerC_facts.2.2), hmd, hsubB]
+  -- the separator is put back
+  have hline : insertLineComments [(n, lcText)]
+      (bannerC ++ ('\n' :: ffText ++ lcLine n ++ '\n' :: fmtEntries .foam 0 (dropUnderscoreEs .foam M))) =
+      bannerC ++ '\n' :: ffText ++ lcText ++ '\n' :: fmtEntries .foam 0 (dropUnderscoreEs .foam M) := by
+    have hpost : isInfix (kwLine ++ padSix n) ('\n' :: fmtEntries .foam 0 (dropUnderscoreEs .foam M)) = false := by
+      rw [C02.isInfix_cons, noLinePh_of_noComment n hnoC]
+      rfl
+    have e : bannerC ++ ('\n' :: ffText ++ lcLine n ++ '\n' :: fmtEntries .foam 0 (dropUnderscoreEs .foam M)) =
+        (bannerC ++ '\n' :: ffText) ++ (kwLine ++ padSix n) ++ spaces 13 ++ (kwLine ++ padSix n) ++ [';'] ++
+          ('\n' :: fmtEntries .foam 0 (dropUnderscoreEs .foam M)) := by
+      simp [lcLine, linePh]
+    rw [insertLine_single, e, C12.C12_substPh_literal (kw := kwLine) (c := 'L') (kw' := "INECOMMENT".toList) (by decide) (by decide) n
+      lcText (bannerC ++ '\n' :: ffText) (spaces 13) _ ?_ (by decide) (C01.spaces_ws 13),
+      C12.substPh_noInfix kwLine n lcText _ hpost]
+    intro h
+    simp only [List.mem_append, List.mem_cons] at h
+    rcases h with h | h | h
+    · exact ffText_noBL.2.2 h
+    · cases h
+    · exact ffText_noBL.2.1 h
+  simp only [fmtSD, hdrop, hoist_foam n hkM]
+  show (match insertIncludes .foam [] (insertBlockComments .foam [(0, bannerC)] _) with
+    | none => none
+    | some t => some (removeTrailingSpaces (insertLineComments [(n, lcText)] t))) = _
+  rw [hblock]
+  simp only [insertIncludes, List.foldl_nil, hline]
+  refine congrArg some ?_
+  have e : bannerC ++ '\n' :: ffText ++ lcText ++ '\n' :: fmtEntries .foam 0 (dropUnderscoreEs .foam M) =
+      foamHeader ++ fmtEntries .foam 0 (dropUnderscoreEs .foam M) := by
+    rw [foamHeader_split]; simp
+  rw [e, rts_foamHeader]
+  refine congrArg (foamHeader ++ ·) ?_
+  show _ = removeTrailingSpaces (fmtEntries .foam 0 (hoistPlaceholders (dropUnderscoreEs .foam M)))
+  rw [C12.hoist_noPh hkM]
+
+/-! ## the removal of private keys and the merge commute -/
+
+/-- "the key is written with a leading underscore" -/
+def isPriv (k : Key) : Bool := (formatKey .foam k).head? == some '_'
+
+theorem drop_cons_priv {k : Key} (h : isPriv k = true) (v : Val) (es : Entries) :
+    dropUnderscoreEs .foam ((k, v) :: es) = dropUnderscoreEs .foam es := by
+  simp only [isPriv] at h
+  simp only [dropUnderscoreEs, h, if_true]
+
+theorem drop_cons_pub {k : Key} (h : isPriv k = false) (v : Val) (es : Entries) :
+    dropUnderscoreEs .foam ((k, v) :: es) = (k, dropUnderscoreV .foam v) :: dropUnderscoreEs .foam es := by
+  simp only [isPriv] at h
+  simp only [dropUnderscoreEs, h, Bool.false_eq_true, if_false]
+
+theorem drop_append : ∀ (a b : Entries),
+    dropUnderscoreEs .foam (a ++ b) = dropUnderscoreEs .foam a ++ dropUnderscoreEs .foam b
+  | [], b => rfl
+  | (k, v) :: a, b => by
+    cases h : isPriv k with
+    | true => rw [List.cons_append, drop_cons_priv h, drop_cons_priv h, drop_append a b]
+    | false => rw [List.cons_append, drop_cons_pub h, drop_cons_pub h, drop_append a b]; rfl
+
+theorem lookup_drop {k : Key} (hk : isPriv k = false) : ∀ t : Entries,
+    lookup k (dropUnderscoreEs .foam t) = (lookup k t).map (dropUnderscoreV .foam)
+  | [] => rfl
+  | (k', v') :: t => by
+    cases h : isPriv k' with
+    | true =>
+      have hne : ¬ k' = k := fun e => by rw [e, hk] at h; cases h
+      rw [drop_cons_priv h, lookup_drop hk t]
+      simp [lookup, hne]
+    | false =>
+      rw [drop_cons_pub h]
+      by_cases e : k' = k
+      · simp [lookup, e]
+      · simp [lookup, e, lookup_drop hk t]
+
+theorem drop_setKey_priv {k : Key} (hk : isPriv k = true) (x : Val) : ∀ t : Entries,
+    dropUnderscoreEs .foam (setKey k x t) = dropUnderscoreEs .foam t
+  | [] => by simp only [setKey]; rw [drop_cons_priv hk]
+  | (k', v') :: t => by
+    by_cases e : k' = k
+    · subst e
+      simp only [setKey, if_true]
+      rw [drop_cons_priv hk, drop_cons_priv hk]
+    · simp only [setKey, e, if_false]
+      cases h : isPriv k' with
+      | true => rw [drop_cons_priv h, drop_cons_priv h, drop_setKey_priv hk x t]
+      | false => rw [drop_cons_pub h, drop_cons_pub h, drop_setKey_priv hk x t]
+
+theorem drop_setKey_pub {k : Key} (hk : isPriv k = false) (x : Val) : ∀ t : Entries,
+    dropUnderscoreEs .foam (setKey k x t) = setKey k (dropUnderscoreV .foam x) (dropUnderscoreEs .foam t)
+  | [] => by simp only [setKey]; rw [drop_cons_pub hk]; rfl
+  | (k', v') :: t => by
+    by_cases e : k' = k
+    · subst e
+      simp only [setKey, if_true]
+      rw [drop_cons_pub hk, drop_cons_pub hk]
+      simp only [setKey, if_true]
+    · simp only [setKey, e, if_false]
+      cases h : isPriv k' with
+      | true => rw [drop_cons_priv h, drop_cons_priv h, drop_setKey_pub hk x t]
+      | false =>
+        rw [drop_cons_pub h, drop_cons_pub h, drop_setKey_pub hk x t]
+        simp only [setKey, e, if_false]
+
+theorem selfRef_drop (exprs : Tbl ExprEntry) (k : Key) (v : Val) :
+    selfRef exprs k (dropUnderscoreV .foam v) = selfRef exprs k v := by
+  cases v with
+  | leaf x => rfl
+  | dict es => rw [dropUnderscoreV, C07.selfRef_dict, C07.selfRef_dict]
+  | list xs => cases k <;> rfl
+
+theorem isDict_drop (v : Val) : (dropUnderscoreV .foam v).isDict = v.isDict := by cases v <;> rfl
+
+/-- `remove_underscore_keys_recursive` commutes with `_recursive_merge` -/
+theorem drop_mergeD (exprs : Tbl ExprEntry) : ∀ (top : Bool) (t o : Entries),
+    dropUnderscoreEs .foam (mergeD top exprs t o) =
+      mergeD top exprs (dropUnderscoreEs .foam t) (dropUnderscoreEs .foam o) := by
+  apply C07.mergeD_induct exprs
+    (motive := fun top t o => dropUnderscoreEs .foam (mergeD top exprs t o) =
+      mergeD top exprs (dropUnderscoreEs .foam t) (dropUnderscoreEs .foam o))
+  · intro top t; rw [C07.mergeD_nil]; show _ = mergeD top exprs _ []; rw [C07.mergeD_nil]
+  · intro top t k v o ih1 ih2
+    rw [C07.mergeD_cons, ih2]
+    cases hk : isPriv k with
+    | true =>
+      rw [drop_cons_priv hk]
+      congr 1
+      unfold C07.mstep
+      split
+      · exact drop_setKey_priv hk _ t
+      · split
+        · exact drop_setKey_priv hk _ t
+        · rfl
+      · rw [drop_append, drop_cons_priv hk]; exact List.append_nil _
+    | false =>
+      rw [drop_cons_pub hk, C07.mergeD_cons]
+      congr 1
+      have hl := lookup_drop hk t
+      cases h : lookup k t with
+      | none =>
+        rw [h] at hl
+        rw [C07.mstep_none top exprs v h, C07.mstep_none top exprs _ hl, drop_append, drop_cons_pub hk]
+        rfl
+      | some tv =>
+        rw [h] at hl
+        by_cases hnd : tv.isDict = false ∨ v.isDict = false
+        · have hnd' : (dropUnderscoreV .foam tv).isDict = false ∨ (dropUnderscoreV .foam v).isDict = false := by
+            rw [isDict_drop, isDict_drop]; exact hnd
+          rw [C07.mstep_some top exprs h hnd, C07.mstep_some top exprs hl hnd', selfRef_drop]
+          split
+          · exact drop_setKey_pub hk v t
+          · rfl
+        · cases tv with
+          | dict td =>
+            cases v with
+            | dict od =>
+              have hl' : lookup k (dropUnderscoreEs .foam t) = some (.dict (dropUnderscoreEs .foam td)) := hl
+              rw [C07.mstep_dict_dict top exprs od h]
+              show _ = C07.mstep top exprs _ k (.dict (dropUnderscoreEs .foam od))
+              rw [C07.mstep_dict_dict top exprs _ hl', drop_setKey_pub hk, dropUnderscoreV, ih1 td od h rfl]
+            | _ => simp [Val.isDict] at hnd
+          | _ => simp [Val.isDict] at hnd
+
+/-! ## merge lemmas for the Foam route -/
+
+theorem mstep_cons_front (top : Bool) (exprs : Tbl ExprEntry) (e : Key × Val) (t : Entries) {k : Key} (v : Val)
+    (hk : k ≠ e.1) : C07.mstep top exprs (e :: t) k v = e :: C07.mstep top exprs t k v := by
+  obtain ⟨k0, v0⟩ := e
+  have hne : ¬ k0 = k := fun h => hk h.symm
+  have hl : lookup k ((k0, v0) :: t) = lookup k t := by simp [lookup, hne]
+  have hs : ∀ x, setKey k x ((k0, v0) :: t) = (k0, v0) :: setKey k x t := fun x => C12.setKey_cons_ne hne t
+  unfold C07.mstep
+  rw [hl]
+  split
+  · rw [hs]
+  · split
+    · rw [hs]
+    · rfl
+  · rfl
+
+/-- an entry in front whose key the merged-in dict does not have is not touched by the merge -/
+theorem mergeD_cons_front (top : Bool) (exprs : Tbl ExprEntry) (e : Key × Val) : ∀ (o t : Entries), e.1 ∉ keys o →
+    mergeD top exprs (e :: t) o = e :: mergeD top exprs t o
+  | [], t, _ => by rw [C07.mergeD_nil, C07.mergeD_nil]
+  | (k, v) :: o, t, h => by
+    have hk : k ≠ e.1 := fun h' => h (by simp [h'])
+    rw [C07.mergeD_cons, C07.mergeD_cons, mstep_cons_front top exprs e t v hk]
+    exact mergeD_cons_front top exprs e o _ fun hm => h (by simp [hm])
+
+/-- when no key of `o` (unique keys) leads to a self-referring entry of `t`, the `SDict` merge is the plain merge -/
+theorem mergeD_top_eq' (exprs : Tbl ExprEntry) : ∀ (o t : Entries), (keys o).Nodup →
+    (∀ k ∈ keys o, ∀ tv, lookup k t = some tv → selfRef exprs k tv = false) →
+    mergeD true exprs t o = mergeD false exprs t o
+  | [], t, _, _ => by rw [C07.mergeD_nil, C07.mergeD_nil]
+  | (k, v) :: o, t, hn, h => by
+    have hn' : k ∉ keys o ∧ (keys o).Nodup := List.nodup_cons.mp hn
+    have hstep : C07.mstep true exprs t k v = C07.mstep false exprs t k v := by
+      unfold C07.mstep
+      split
+      · rfl
+      · next _ tv hl _ => simp [h k (by simp) tv hl]
+      · rfl
+    rw [C07.mergeD_cons, C07.mergeD_cons, hstep]
+    apply mergeD_top_eq' exprs o _ hn'.2
+    intro k' hk' tv hl
+    have hne : ¬ k = k' := fun e => hn'.1 (e ▸ hk')
+    rw [C07.lookup_mstep, if_neg hne] at hl
+    exact h k' (by simp [hk']) tv hl
+
+theorem selfRef_dom_f {k : Key} {v : Val} {d : Nat} (hk : isDomKey k = true) (hv : domV .foam d v = true) :
+    selfRef [] k v = false := by
+  cases v with
+  | dict es => exact C07.selfRef_dict _ _ _
+  | list xs => cases k <;> rfl
+  | leaf x =>
+    cases x with
+    | str vs =>
+      simp only [domV, Bool.and_eq_true, decide_eq_true_eq] at hv
+      have hs : isDomStr .native vs = true := (C10.Foam.isDomStr_foam hv.1).1
+      exact selfRef_dom (d := d) hk (by simp only [domV, Bool.and_eq_true, decide_eq_true_eq]; exact ⟨hs, hv.2⟩)
+    | _ => cases k <;> rfl
+
+theorem noSelf_dom_f {e : Entries} (h : DomC01 .foam e = true) :
+    ∀ k tv, lookup k e = some tv → selfRef [] k tv = false := by
+  simp only [DomC01, Bool.and_eq_true] at h
+  have hd := h.1
+  clear h
+  induction e with
+  | nil => intro k tv hl; simp [lookup] at hl
+  | cons a e ih =>
+    obtain ⟨k0, v0⟩ := a
+    simp only [domEs, Bool.and_eq_true] at hd
+    intro k tv hl
+    simp only [lookup] at hl
+    split at hl
+    · next hk => cases hl; subst hk; exact selfRef_dom_f hd.1.1 hd.1.2
+    · exact ih hd.2 k tv hl
+
+/-! ## the plain routes of the Foam flavour -/
+
+/-- the `SDict` route without tables (header abstract: the kernel must not unfold the long literal) -/
+theorem fmtSD_plain_gen (H : Str) (hb : ∀ t, insertBlockComments .foam [] t = H ++ t) (M : Entries) :
+    fmtSD .foam { data := M } = some (removeTrailingSpaces
+      (H ++ fmtEntries .foam 0 (hoistPlaceholders (dropUnderscoreEs .foam M)))) := by
+  simp only [fmtSD, hb, insertIncludes, insertLineComments, List.foldl_nil]
+
+theorem fmtSD_foam_plain (M : Entries) : fmtSD .foam { data := M } = some (foamHeader ++ fmtPlain .foam M) := by
+  rw [fmtSD_plain_gen foamHeader C10.C10_banner_raw, rts_foamHeader]
+  exact congrArg (fun x => some (foamHeader ++ x)) rfl
+
+/-- reading the Foam writer's plain text, counter valid afterwards -/
+theorem read_written_text_f {e : Entries} {c : Counter} (comments : Bool) (dir : Str)
+    (h : DomC01 .foam e = true) (hu : C10.NoUnderscoreEs e) (hd : C01.DocKeysAbsent' e)
+    (hn : C02.countQuotedEs (srcOfEs .foam e) ≤ Gen.counterLimit + 1) (hc : C13.ValidCounter Gen.counterLimit c) :
+    ∃ c', C13.ValidCounter Gen.counterLimit c' ∧
+      parseNative comments dir c (fmtPlain .foam e) = .ok ({ data := normEs e }, c') := by
+  have hdom : domEs .foam 1 e = true := by
+    simp only [DomC01, Bool.and_eq_true] at h; exact h.1
+  have hwf := C10.Foam.srcOf_wf_f 1 e hdom
+  have hden := C10.Foam.den_written_f h
+  obtain ⟨gaps, tail, he, hg, ht⟩ := C10.Foam.fmtPlain_is_layout_f h hu
+  refine ⟨(labelEs { counter := c } (srcOfEs .foam e)).1.counter, ?_, ?_⟩
+  · rw [(C02.labelEs_state _ _).2.2]; exact C02.adv_valid _ hc
+  · rw [he, ← hden]
+    refine C02.C02_layout_tolerant_gen comments dir hwf hg ht hc hn ?_ ?_
+    · rw [hden]; exact C01.norm_lookup_none fun e he => (hd e he).1
+    · rw [hden]; exact C01.norm_lookup_none fun e he => (hd e he).2
+
+
 /-! # property theorems -/
 
 /-! ## (2) `order = true`, native flavour -/
@@ -548,6 +1550,297 @@ theorem C16_fold_ordered (ev : Str → EvalResult) (target : Comps) (ws : List (
     · exact C15.order_sorted (.dict D)
     · exact C15.order_sameAssoc (.dict D) hD.nodup
 
+
+/-! ## the states of a Foam file -/
+
+/-- a dict a Foam file may hold: in the Foam value domain, normalised, without private keys and without a
+    `FoamFile` key -/
+structure GoodF (e : Entries) : Prop where
+  dom : DomC01 .foam e = true
+  norm : normEs e = e
+  nou : C10.NoUnderscoreEs e
+  noff : ffKey ∉ keys e
+  cnt : C02.countQuotedEs (srcOfEs .foam e) ≤ Gen.counterLimit + 1
+
+theorem GoodF.noPh {e : Entries} (h : GoodF e) : C07.NoPhEs e := by
+  have := (C10.norm_invariants_foam h.dom).1; rwa [h.norm] at this
+
+theorem GoodF.nodup {e : Entries} (h : GoodF e) : NodupKeysV (.dict e) := by
+  have := (C10.norm_invariants_foam h.dom).2; rwa [h.norm] at this
+
+theorem GoodF.doc {e : Entries} (h : GoodF e) : C01.DocKeysAbsent' e := by
+  have := C10.docKeys_dropped e; rwa [C10.C10_drop_id e h.nou] at this
+
+/-- the file holds `e`: written by the plain-dict route (no header) or by the `SDict` route (Foam header in front) -/
+def FileOfF : Bool → Entries → Str → Prop
+  | false, e, t => t = fmtPlain .foam e
+  | true, e, t => t = foamHeader ++ fmtPlain .foam e
+
+/-- the path hypotheses for a `.foam` target -/
+theorem pathOK_foam {target : Comps} (hf : C10.isFoamPath target = true) (hr : resolveSpelled target = target) :
+    PathOK target :=
+  ⟨(C10.foamPath_dispatch hf).1, (C10.foamPath_dispatch hf).2, hr⟩
+
+/-- reading the file in either state -/
+theorem read_anyF {e : Entries} {t : Str} {c : Counter} {b : Bool} (ev : Str → EvalResult) {target : Comps}
+    (P : PathOK target) (h : GoodF e) (hf : FileOfF b e t) (hc : C13.ValidCounter Gen.counterLimit c) :
+    ∃ sd c', C13.ValidCounter Gen.counterLimit c' ∧
+      readFile ev [(target, .native t)] {} c target = .ok (.ok sd c') ∧
+      ((b = false ∧ sd = { data := e }) ∨ (b = true ∧ ∃ n, n ≤ 999999 ∧ sd = foamSD n e)) := by
+  cases b with
+  | false =>
+    have ht : t = fmtPlain .foam e := hf
+    subst ht
+    obtain ⟨c', hv, hp⟩ := read_written_text_f (c := c) true (pathStr target.dropLast) h.dom h.nou h.doc h.cnt hc
+    rw [h.norm] at hp
+    exact ⟨_, c', hv, C03.readFile_of_parse ev target _ hp h.noPh h.nodup P.hj P.hx P.hr, Or.inl ⟨rfl, rfl⟩⟩
+  | true =>
+    have ht : t = foamHeader ++ fmtPlain .foam e := hf
+    subst ht
+    obtain ⟨c', hv, hp⟩ := parse_foam_hdr (c := c) (pathStr target.dropLast) h.dom h.nou h.doc h.noff h.cnt hc
+    rw [h.norm] at hp
+    exact ⟨_, c', hv, readFile_of_parse_foam ev target _ hp (next_le hc) h.noPh h.nodup h.noff P.hj P.hx P.hr,
+      Or.inr ⟨rfl, _, next_le hc, rfl⟩⟩
+
+theorem ffKey_noPh : C07.isPhKey ffKey = false := by decide +kernel
+
+theorem dropPh_foamSD {n : Nat} (hn : n ≤ 999999) {D : Entries} (hp : C07.NoPhEs D) :
+    C01.dropPhEntries (foamSD n D).data = ffEntry :: D := by
+  have hk := C12.noPh_keys hp
+  show List.filter _ (C12.hdrEntry :: ffEntry :: lcEntry n :: D) = _
+  have h1 : (!C07.isPhKey C12.hdrEntry.1) = false := by
+    show (!C07.isPhKey (.str C12.hdrPh)) = false
+    rw [C12.hdrPh_isPh]; rfl
+  have h2 : (!C07.isPhKey ffEntry.1) = true := by
+    show (!C07.isPhKey ffKey) = true
+    rw [ffKey_noPh]; rfl
+  have h3 : (!C07.isPhKey (lcEntry n).1) = false := by
+    show (!C07.isPhKey (.str (linePh n))) = false
+    rw [lcKey_isPh hn]; rfl
+  rw [List.filter_cons, h1, List.filter_cons, h2, List.filter_cons, h3]
+  simp only [Bool.false_eq_true, if_false, if_true]
+  congr 1
+  exact List.filter_eq_self.mpr fun e he => by rw [hk e.1 (List.mem_map_of_mem he)]; rfl
+
+/-! ## one append, Foam flavour -/
+
+theorem ffKey_merge {e N : Entries} (top : Bool) (hN : (keys N).Nodup) (he : ffKey ∉ keys e) (hNff : ffKey ∉ keys N) :
+    ffKey ∉ keys (mergeD top [] e N) := by
+  rw [C07.merge_keys top [] N e hN]
+  intro hm
+  rcases List.mem_append.mp hm with h | h
+  · exact he h
+  · exact hNff (List.mem_filter.mp h).1
+
+/-- the append-merge on the SDict read from a Foam file with header: the three header entries and the tables stay,
+    the data is merged -/
+theorem merge_foamSD {n : Nat} (hn : n ≤ 999999) {e N : Entries} (he : GoodF e) (hNp : C07.NoPhEs N)
+    (hNn : NodupKeysV (.dict N)) (hNff : ffKey ∉ keys N) :
+    (foamSD n e).merge (.plain N) = foamSD n (mergeD true [] e N) := by
+  have hkN := C12.noPh_keys hNp
+  have hl : (lcEntry n).1 ∉ keys N := fun hm => by
+    have := hkN _ hm
+    rw [show (lcEntry n).1 = Key.str (linePh n) from rfl, lcKey_isPh hn] at this; cases this
+  have hd : mergeD true [] (C12.hdrEntry :: ffEntry :: lcEntry n :: e) N =
+      C12.hdrEntry :: ffEntry :: lcEntry n :: mergeD true [] e N := by
+    rw [mergeD_cons_front true [] C12.hdrEntry N _ (C12.hdr_not_mem hNp), mergeD_cons_front true [] ffEntry N _ hNff,
+      mergeD_cons_front true [] (lcEntry n) N _ hl]
+  show (({ foamSD n e with data := mergeD true [] (C12.hdrEntry :: ffEntry :: lcEntry n :: e) N } : SD).postMerge
+    (.plain N)).clean = _
+  rw [hd]
+  exact clean_foam _ n hn (mergeD true [] e N) bannerC lcText rfl rfl rfl
+    (C07.noPhEs_mergeD [] true e N he.noPh hNp) (C07.nodupV_mergeD [] true e N he.nodup hNn.2)
+    (ffKey_merge true hNn.1 he.noff hNff)
+
+/-- what the written dict must satisfy beyond the domain condition on its public part: no `FoamFile` key on the top
+    level, no comment/include placeholder word as a key and unique keys at every level — private parts included -/
+structure DictOKF (d : Entries) : Prop where
+  dom : DomC01 .foam (normEs (dropUnderscoreEs .foam d)) = true
+  noff : ffKey ∉ keys d
+  noPh : C07.NoPhEs (normEs d)
+  nodup : NodupKeysV (.dict (normEs d))
+
+/-- a Bool-checkable sufficient condition: the whole dict (private parts included) and its public part lie in the
+    Foam value domain, and there is no top-level `FoamFile` key -/
+theorem dictOKF_of_dom {d : Entries} (h : DomC01 .foam (normEs d) = true)
+    (hp : DomC01 .foam (normEs (dropUnderscoreEs .foam d)) = true) (hff : ffKey ∉ keys d) : DictOKF d := by
+  have hinv := C10.norm_invariants_foam h
+  rw [C01.normEs_idem] at hinv
+  exact ⟨hp, hff, hinv.1, hinv.2⟩
+
+/-- the public part of the merge is the merge with the public part -/
+theorem drop_merge_state {e d : Entries} (he : GoodF e) (hd : DictOKF d) :
+    dropUnderscoreEs .foam (mergeD true [] e (normEs d)) =
+      mergeD false [] e (normEs (dropUnderscoreEs .foam d)) := by
+  rw [mergeD_top_eq' [] (normEs d) e hd.nodup.1 (fun k _ => noSelf_dom_f he.dom k), drop_mergeD,
+    C10.C10_drop_id e he.nou, C10.normEs_drop]
+
+/-- **append onto a Foam file that holds `e`** (in either state): the file then holds the merge with the public part
+    of the new dict, written by the `SDict` route, i.e. with the Foam header (kept if it was there, put in front if
+    not) -/
+theorem append_anyF {e d : Entries} {t : Str} {c : Counter} {b : Bool} (ev : Str → EvalResult) {target : Comps}
+    (P : PathOK target) (he : GoodF e) (hf : FileOfF b e t) (hc : C13.ValidCounter Gen.counterLimit c)
+    (hd : DictOKF d)
+    (hM : DomC01 .foam (mergeD false [] e (normEs (dropUnderscoreEs .foam d))) = true) :
+    ∃ c', C13.ValidCounter Gen.counterLimit c' ∧
+      writeStep ev .foam target (some t) ['a'] false d c =
+        .ok (foamHeader ++ fmtPlain .foam (mergeD false [] e (normEs (dropUnderscoreEs .foam d))), c') := by
+  obtain ⟨sd, c', hv, hr, hsd⟩ := read_anyF ev P he hf hc
+  refine ⟨c', hv, ?_⟩
+  have hNff : ffKey ∉ keys (normEs d) := by rw [C01.keys_normEs]; exact hd.noff
+  have hdrop := drop_merge_state he hd
+  have htext : fmtPlain .foam (mergeD true [] e (normEs d)) =
+      fmtPlain .foam (mergeD false [] e (normEs (dropUnderscoreEs .foam d))) := by
+    rw [← C10.C10_fmtPlain_drop, hdrop]
+  rw [C16_append_data ev .foam target t false d c c' sd hr]
+  simp only [Bool.false_eq_true, if_false]
+  rcases hsd with ⟨_, rfl⟩ | ⟨_, n, hn, rfl⟩
+  · rw [C07.merge_tables_plain { data := e } (normEs d) (C07.nodupV_mergeD [] true e (normEs d) he.nodup hd.nodup.2)
+      (C07.noPhEs_mergeD [] true e (normEs d) he.noPh hd.noPh), fmtSD_foam_plain, htext]
+  · rw [merge_foamSD hn he hd.noPh hd.nodup hNff, fmtSD_foam hn (by rw [hdrop]; exact hM), htext]
+
+/-! ## sequences of writes, Foam flavour -/
+
+/-- the sequence the specification folds: every written dict without its private keys -/
+def dropWs (ws : List (Str × Entries)) : List (Str × Entries) := ws.map fun w => (w.1, dropUnderscoreEs .foam w.2)
+
+/-- does the file carry the Foam header after the writes (`b`: does it before)?  Exactly when the last write was an
+    append onto the existing file -/
+def hdrAfter : Bool → List (Str × Entries) → Bool
+  | b, [] => b
+  | _, (m, _) :: ws => hdrAfter (m == ['a']) ws
+
+def StateOKF (e : Entries) : Prop :=
+  DomC01 .foam e = true ∧ C02.countQuotedEs (srcOfEs .foam e) ≤ Gen.counterLimit + 1
+
+theorem keys_drop_sub {k : Key} : ∀ {es : Entries}, k ∈ keys (dropUnderscoreEs .foam es) → k ∈ keys es
+  | [], h => by simp [dropUnderscoreEs] at h
+  | (k', v') :: es, h => by
+    cases hp : isPriv k' with
+    | true => rw [drop_cons_priv hp] at h; exact List.mem_cons_of_mem _ (keys_drop_sub h)
+    | false =>
+      rw [drop_cons_pub hp] at h
+      rcases List.mem_cons.mp h with rfl | h
+      · exact List.mem_cons_self
+      · exact List.mem_cons_of_mem _ (keys_drop_sub h)
+
+theorem DictOKF.noff' {d : Entries} (h : DictOKF d) : ffKey ∉ keys (normEs (dropUnderscoreEs .foam d)) := by
+  rw [C01.keys_normEs]; exact fun hm => h.noff (keys_drop_sub hm)
+
+theorem DictOKF.keysNodup {d : Entries} (h : DictOKF d) : (keys (normEs (dropUnderscoreEs .foam d))).Nodup := by
+  have := h.dom
+  simp only [DomC01, Bool.and_eq_true, decide_eq_true_eq] at this
+  exact this.2
+
+/-- the first state, and the state after an overwrite -/
+theorem goodF_first {d : Entries} (hd : DictOKF d) (hs : StateOKF (normEs (dropUnderscoreEs .foam d))) :
+    GoodF (normEs (dropUnderscoreEs .foam d)) :=
+  ⟨hs.1, C01.normEs_idem _, by rw [C10.normEs_drop]; exact C10.C10_underscore _, hd.noff', hs.2⟩
+
+/-- the state after one more write -/
+theorem goodF_next {e d : Entries} (he : GoodF e) (hd : DictOKF d) (m : Str)
+    (hs : StateOKF (nextState e m (dropUnderscoreEs .foam d))) : GoodF (nextState e m (dropUnderscoreEs .foam d)) := by
+  refine ⟨hs.1, nextState_norm he.norm m _, ?_, ?_, hs.2⟩
+  · unfold nextState
+    split
+    · rw [← drop_merge_state he hd]; exact C10.C10_underscore _
+    · rw [C10.normEs_drop]; exact C10.C10_underscore _
+  · unfold nextState
+    split
+    · exact ffKey_merge false hd.keysNodup he.noff hd.noff'
+    · exact hd.noff'
+
+theorem fmtPlain_norm_drop (d : Entries) :
+    fmtPlain .foam (normEs d) = fmtPlain .foam (normEs (dropUnderscoreEs .foam d)) := by
+  rw [C10.normEs_drop, C10.C10_fmtPlain_drop]
+
+/-- one write onto an existing Foam file that holds `e` -/
+theorem write_anyF {e d : Entries} {t : Str} {c : Counter} {b : Bool} (ev : Str → EvalResult) {target : Comps}
+    (P : PathOK target) (m : Str) (he : GoodF e) (hf : FileOfF b e t) (hc : C13.ValidCounter Gen.counterLimit c)
+    (hd : DictOKF d) (hM : DomC01 .foam (nextState e m (dropUnderscoreEs .foam d)) = true) :
+    ∃ t' c', C13.ValidCounter Gen.counterLimit c' ∧
+      writeStep ev .foam target (some t) m false d c = .ok (t', c') ∧
+      FileOfF (m == ['a']) (nextState e m (dropUnderscoreEs .foam d)) t' := by
+  by_cases hm : m = ['a']
+  · subst hm
+    have hM' : DomC01 .foam (mergeD false [] e (normEs (dropUnderscoreEs .foam d))) = true := by
+      simpa [nextState] using hM
+    obtain ⟨c', hv, hw⟩ := append_anyF ev P he hf hc hd hM'
+    refine ⟨_, c', hv, hw, ?_⟩
+    show FileOfF true _ _
+    simp [nextState, FileOfF]
+  · have hm' : (m == ['a']) = false := by simpa using hm
+    refine ⟨_, c, hc, C16_overwrite ev .foam target t m false d c hm, ?_⟩
+    rw [hm']
+    show fmtPlain .foam (normEs d) = fmtPlain .foam (nextState e m (dropUnderscoreEs .foam d))
+    simp only [nextState, hm', Bool.false_eq_true, if_false]
+    exact fmtPlain_norm_drop d
+
+theorem dropWs_cons (m : Str) (d : Entries) (ws : List (Str × Entries)) :
+    dropWs ((m, d) :: ws) = (m, dropUnderscoreEs .foam d) :: dropWs ws := rfl
+
+/-- a sequence of writes onto an existing Foam file that holds `e` -/
+theorem run_anyF (ev : Str → EvalResult) {target : Comps} (P : PathOK target) :
+    ∀ (ws : List (Str × Entries)) (e : Entries) (t : Str) (c : Counter) (b : Bool), GoodF e → FileOfF b e t →
+      C13.ValidCounter Gen.counterLimit c → (∀ s ∈ specStates (some e) (dropWs ws), StateOKF s) →
+      (∀ w ∈ ws, DictOKF w.2) →
+      ∃ t' c' D, C13.ValidCounter Gen.counterLimit c' ∧
+        runWrites ev .foam target false (some t) c ws = .ok (some t', c') ∧
+        specFold (some e) (dropWs ws) = some D ∧ GoodF D ∧ FileOfF (hdrAfter b ws) D t'
+  | [], e, t, c, b, he, hf, hc, _, _ => ⟨t, c, e, hc, rfl, rfl, he, hf⟩
+  | (m, d) :: ws, e, t, c, b, he, hf, hc, hs, hw => by
+    rw [dropWs_cons, specStates_cons] at hs
+    have hd := hw (m, d) List.mem_cons_self
+    have hnext : GoodF (nextState e m (dropUnderscoreEs .foam d)) := goodF_next he hd m (hs _ List.mem_cons_self)
+    obtain ⟨t1, c1, hv1, hw1, hf1⟩ := write_anyF ev P m he hf hc hd hnext.dom
+    obtain ⟨t', c', D, hv, hrun, hspec, hD, hfD⟩ := run_anyF ev P ws _ t1 c1 _ hnext hf1 hv1
+      (fun s hs' => hs s (List.mem_cons_of_mem _ hs')) (fun w hw' => hw w (List.mem_cons_of_mem _ hw'))
+    refine ⟨t', c', D, hv, ?_, ?_, hD, hfD⟩
+    · simp only [runWrites, hw1]; exact hrun
+    · rw [dropWs_cons, specFold_cons]; exact hspec
+
+/-- **C16, sequences of writes, OpenFOAM flavour.**  `ws` is any non-empty sequence of writes `(mode, dict)` with
+    arbitrary modes to a fresh `.foam` target.  The specification is the fold `specFold` of `C16_fold_statement` over
+    the written dicts *without their private keys* (`dropWs`: keys written with a leading `_` are removed at every
+    level, also inside lists).  If every state of that fold lies in the Foam value domain and every written dict
+    satisfies `DictOKF`, the sequence succeeds and reading the file back (default options) returns — apart from the
+    comment placeholder entries — the fold `D`, preceded by the `FoamFile` entry of the Foam header exactly when the
+    last write was an append onto the existing file (`hdrAfter`); no key with a leading `_` is left at any level. -/
+theorem C16_fold_foam (ev : Str → EvalResult) (target : Comps) (ws : List (Str × Entries)) (c : Counter)
+    (hne : ws ≠ [])
+    (hs : ∀ e ∈ specStates none (dropWs ws), DomC01 .foam e = true ∧
+      C02.countQuotedEs (srcOfEs .foam e) ≤ Gen.counterLimit + 1)
+    (hw : ∀ w ∈ ws, DictOKF w.2)
+    (hc : C13.ValidCounter Gen.counterLimit c)
+    (hf : C10.isFoamPath target = true) (hr : resolveSpelled target = target) :
+    ∃ t c₁ sd c₂ D, runWrites ev .foam target false none c ws = .ok (some t, c₁) ∧
+      readFile ev [(target, .native t)] {} c₁ target = .ok (.ok sd c₂) ∧
+      specFold none (dropWs ws) = some D ∧
+      C01.dropPhEntries sd.data = (if hdrAfter false ws.tail then [ffEntry] else []) ++ D ∧
+      C10.NoUnderscoreEs D := by
+  have P : PathOK target := pathOK_foam hf hr
+  cases ws with
+  | nil => exact absurd rfl hne
+  | cons w ws =>
+    obtain ⟨m, d⟩ := w
+    have hs0 : specStates none (dropWs ((m, d) :: ws)) =
+        normEs (dropUnderscoreEs .foam d) :: specStates (some (normEs (dropUnderscoreEs .foam d))) (dropWs ws) := rfl
+    rw [hs0] at hs
+    have hd := hw (m, d) List.mem_cons_self
+    have h0 : GoodF (normEs (dropUnderscoreEs .foam d)) := goodF_first hd (hs _ List.mem_cons_self)
+    obtain ⟨t', c', D, hv, hrun, hspec, hD, hfD⟩ := run_anyF ev P ws _ (fmtPlain .foam (normEs d)) c false h0
+      (fmtPlain_norm_drop d) hc (fun s hs' => hs s (List.mem_cons_of_mem _ hs'))
+      (fun w hw' => hw w (List.mem_cons_of_mem _ hw'))
+    obtain ⟨sd, c₂, _, hread, hsd⟩ := read_anyF ev P hD hfD hv
+    refine ⟨t', c', sd, c₂, D, ?_, hread, hspec, ?_, hD.nou⟩
+    · simp only [runWrites, C16_new_file]
+      exact hrun
+    · show _ = (if hdrAfter false ws then [ffEntry] else []) ++ D
+      rcases hsd with ⟨hb, rfl⟩ | ⟨hb, n, hn, rfl⟩
+      · rw [hb]; exact dropPh_plain hD.noPh
+      · rw [hb]; exact dropPh_foamSD hn hD.noPh
+
+
 /-! # non-vacuity -/
 
 /-! ## (2): write `{b: 1, 3: {z: 1, y: 2}}`, append `{a: "2", b: 9, 3: {x: 5, z: 7}}`, append `{A: {x: 1}, 1: 0}`,
@@ -591,5 +1884,76 @@ theorem ex_fold_ordered (ev : Str → EvalResult) :
   cases h3
   rw [exFoldO_eq] at h4
   exact ⟨t, c₁, sd, c₂, h1, h2, h4⟩
+
+
+/-! ## non-vacuity (1): write `{b: 1, _p: 1, 3: {z: 1, _y: 2}}`, append `{a: "2", b: 9, _p: 7, 3: {_y: 5, x: 7}}`,
+    append `{A: {x: 1, _q: 1}, 1: 0}` to `/w/dict.foam` -/
+
+def exWsF : List (Str × Entries) :=
+  [ (['w'], [(.str ['b'], .leaf (.int 1)), (.str "_p".toList, .leaf (.int 1)),
+             (.int 3, .dict [(.str ['z'], .leaf (.int 1)), (.str "_y".toList, .leaf (.int 2))])]),
+    (['a'], [(.str ['a'], .leaf (.str ['2'])), (.str ['b'], .leaf (.int 9)), (.str "_p".toList, .leaf (.int 7)),
+             (.int 3, .dict [(.str "_y".toList, .leaf (.int 5)), (.str ['x'], .leaf (.int 7))])]),
+    (['a'], [(.str ['A'], .dict [(.str ['x'], .leaf (.int 1)), (.str "_q".toList, .leaf (.int 1))]),
+             (.int 1, .leaf (.int 0))]) ]
+
+/-- the fold over the public parts: `{b: 1, 3: {z: 1, x: 7}, a: 2, A: {x: 1}, 1: 0}` -/
+def exFoldF : Entries :=
+  [(.str ['b'], .leaf (.int 1)), (.int 3, .dict [(.str ['z'], .leaf (.int 1)), (.str ['x'], .leaf (.int 7))]),
+   (.str ['a'], .leaf (.int 2)), (.str ['A'], .dict [(.str ['x'], .leaf (.int 1))]), (.int 1, .leaf (.int 0))]
+
+theorem exWsF_spec : specFold none (dropWs exWsF) = some exFoldF := by decide +kernel
+
+theorem exWsF_ok : ∀ w ∈ exWsF, DictOKF w.2 := by
+  intro w hw
+  simp only [exWsF, List.mem_cons, List.not_mem_nil, or_false] at hw
+  rcases hw with rfl | rfl | rfl
+  all_goals
+    refine ⟨by decide +kernel, by decide +kernel, ?_, ?_⟩
+    · simp only [normEs, normV, C07.NoPhEs, C07.NoPhV, and_true]
+      decide +kernel
+    · simp only [normEs, normV, NodupKeysV, NodupKeysEs, and_true, keys, List.map_cons, List.map_nil]
+      decide +kernel
+
+theorem ex_fold_foam (ev : Str → EvalResult) :
+    ∃ t c₁ sd c₂, runWrites ev .foam C10.exTarget false none none exWsF = .ok (some t, c₁) ∧
+      readFile ev [(C10.exTarget, .native t)] {} c₁ C10.exTarget = .ok (.ok sd c₂) ∧
+      C01.dropPhEntries sd.data = ffEntry :: exFoldF := by
+  obtain ⟨t, c₁, sd, c₂, D, h1, h2, h3, h4, _⟩ := C16_fold_foam ev C10.exTarget exWsF none (by decide)
+    (by decide +kernel) exWsF_ok (Or.inl rfl) C10.exTarget_foam.1 C10.exTarget_foam.2
+  rw [exWsF_spec] at h3
+  cases h3
+  exact ⟨t, c₁, sd, c₂, h1, h2, h4⟩
+
+/-- **the unadjusted statement is false for the Foam flavour**: with the fold over the dicts as written
+    (`specFold none exWsF`, private keys kept, nothing added) the conclusion of `C16_fold_statement` fails on the
+    example — the file read back has lost `_p`, `_y`, `_q` and gained the `FoamFile` entry.  In Python terms:
+    `DictWriter.write({'b': 1, '_p': 1, 3: {'z': 1, '_y': 2}}, 'dict.foam', mode='w')`, then
+    `write({'a': "2", 'b': 9, '_p': 7, 3: {'_y': 5, 'x': 7}}, 'dict.foam', mode='a')`, then
+    `write({'A': {'x': 1, '_q': 1}, 1: 0}, 'dict.foam', mode='a')`; `DictReader.read('dict.foam')`. -/
+theorem foam_naive_fold_false (ev : Str → EvalResult) :
+    ¬ ∃ t c₁ sd c₂ D, runWrites ev .foam C10.exTarget false none none exWsF = .ok (some t, c₁) ∧
+      readFile ev [(C10.exTarget, .native t)] {} c₁ C10.exTarget = .ok (.ok sd c₂) ∧
+      specFold none exWsF = some D ∧ C01.dropPhEntries sd.data = D := by
+  rintro ⟨t, c₁, sd, c₂, D, h1, h2, h3, h4⟩
+  obtain ⟨t', c₁', sd', c₂', g1, g2, g3⟩ := ex_fold_foam ev
+  rw [h1] at g1
+  cases g1
+  rw [h2] at g2
+  cases g2
+  rw [h4] at g3
+  subst g3
+  revert h3
+  decide +kernel
+
+/-
+#print axioms C16_fold_ordered      -- [propext, Classical.choice, Quot.sound]
+#print axioms C16_fold_foam         -- [propext, Classical.choice, Quot.sound]
+#print axioms ex_fold_ordered       -- [propext, Classical.choice, Quot.sound]
+#print axioms ex_fold_foam          -- [propext, Classical.choice, Quot.sound]
+#print axioms foam_naive_fold_false -- [propext, Classical.choice, Quot.sound]
+#print axioms orderD_merge_orderD   -- [propext, Classical.choice, Quot.sound]
+#print axioms drop_mergeD           -- [propext, Classical.choice, Quot.sound]
+-/
 
 end DictIO.C16ext
